@@ -76,6 +76,39 @@ class ManualExecutor(object):
         self.is_shutdown = True
 
 
+class HookLock(object):
+    """Wraps a pool/session lock: just before its n-th acquisition the hook runs once (on the acquiring thread), i.e. another
+    thread's action is forced into the window right before the locked region."""
+
+    def __init__(self, inner, skip, hook):
+        self.inner, self.skip, self.hook = inner, skip, hook
+
+    def _maybe(self):
+        if self.hook is not None:
+            if self.skip == 0:
+                h, self.hook = self.hook, None
+                h()
+            else:
+                self.skip -= 1
+
+    def acquire(self, *a, **k):
+        self._maybe()
+        return self.inner.acquire(*a, **k)
+
+    def release(self):
+        return self.inner.release()
+
+    def __enter__(self):
+        self._maybe()
+        return self.inner.__enter__()
+
+    def __exit__(self, *a):
+        return self.inner.__exit__(*a)
+
+    def __getattr__(self, name):
+        return getattr(self.inner, name)
+
+
 class ManualScheduler(object):
     """Same interface as cluster._Scheduler; timers fire when the history says so."""
 
@@ -180,6 +213,7 @@ class Harness(object):
                         raise cassandra.AuthenticationFailed('scripted auth failure')
                     return cls(hid, control)
                 H.attempts.append((hid, 'control' if control else 'data', o, H.removed[hid]))
+                H.attempt_after_shutdown.append(bool(H.cluster.is_shutdown))      # did this attempt START after Cluster.shutdown?
                 if H.in_recon:
                     H.log.append(('A', 'attempt', hid))
                 if o == 'fail':
@@ -187,6 +221,9 @@ class Harness(object):
                 if o == 'auth':
                     raise cassandra.AuthenticationFailed('scripted auth failure')
                 if o == 'err':
+                    if H.after_connect is not None:      # C45: the shutdown arrives while this (failing) connect is in progress
+                        cb, H.after_connect = H.after_connect, None
+                        cb()
                     raise RuntimeError('scripted connect error')
                 c = cls(hid, control)
                 if H.after_connect is not None:      # C45: something happens while the connect is in progress
@@ -239,6 +276,7 @@ class Harness(object):
 
         self.FakeConn = FakeConn
         self.after_connect = None
+        self.attempt_after_shutdown = []
         self.probes = []            # in-flight split reconnection attempts
         self.probe_by_thread = {}
         self.req_timers = []
